@@ -1,4 +1,4 @@
 """fail-closed python-ast -> Gallina translators; ALL maps Gen file name -> function returning Coq text."""
-from vlib.translators import layout, fromi
+from vlib.translators import layout, fromi, varterms
 
-ALL = {"GenLayout": layout.translate, "GenFromI": fromi.translate}
+ALL = {"GenLayout": layout.translate, "GenFromI": fromi.translate, "GenVarTermsQ": varterms.translate_Q, "GenVarTermsR": varterms.translate_R}
